@@ -13,6 +13,10 @@ pub mod c07;
 pub mod c10;
 pub mod c11;
 pub mod c12;
+pub mod c13;
+pub mod c15;
+pub mod c16;
+pub mod c17;
 
 #[derive(Clone, Debug, serde::Serialize, serde::Deserialize)]
 pub struct Violation {
@@ -60,6 +64,10 @@ pub fn check(case: &Case, out: &RunOutput) -> Verdict {
         Family::C10 => c10::check(&v, &mut vd),
         Family::C11 => c11::check(&v, &mut vd),
         Family::C12 => c12::check(&v, &mut vd),
+        Family::C13 => c13::check(&v, &mut vd),
+        Family::C15 => c15::check(&v, &mut vd),
+        Family::C16 => c16::check(&v, &mut vd),
+        Family::C17 => c17::check(&v, &mut vd),
         _ => {}
     }
     vd
